@@ -195,6 +195,9 @@ class RungeKuttaIntegrator(TableauIntegrator, abc.ABC):
             self.solver_dict['rtol'] = self.rtol
             self.solver_dict['dState'] = self.dState
             timestep, redo_step = self.update_timestep()
+            if not self.is_adaptive:
+                # no embedded error estimate: keep the step that was taken
+                timestep, redo_step = self.dTime, False
             if self.is_implicit and not self.solver_dict.get("newton_iteration_success"):
                 redo_step = True
                 timestep = timestep * 0.8
@@ -212,6 +215,8 @@ class RungeKuttaIntegrator(TableauIntegrator, abc.ABC):
                     self.solver_dict['timestep'] = self.dTime
                     self.solver_dict['dState'] = self.dState
                     timestep, redo_step = self.update_timestep()
+                    if not self.is_adaptive:
+                        timestep, redo_step = self.dTime, False
                     if self.is_implicit and not self.solver_dict.get("newton_iteration_success"):
                         redo_step = True
                         timestep = timestep * 0.8
